@@ -46,6 +46,15 @@ def gen_strings(ctx):
         out.append(("fold-align", "é" * rng.randrange(0, 3) + "x" * rng.randrange(50, 80) + rng.choice(["\ufeff", "\u2028", "€", "\U0001F600"]) + "yz"))
     for _ in range(20000 if ctx.big else 1500 * (1 + 4 * ctx.level)):
         out.append(("random-long", "".join(rng.choice(uni) for _ in range(rng.randrange(0, 60)))))
+    # every pair "ASCII punctuation, then a punctuation mark or a letter/digit that escape syntaxes use" (backslash, caret,
+    # percent, ampersand ... conventions all have this shape), alone and embedded: a text codec must treat them all as data
+    punct = [chr(c) for c in range(33, 127) if not chr(c).isalnum()]
+    second = punct + list("nNtrTR0259CcAa ") + ["\n"]
+    for a in punct:
+        for b in second:
+            out.append(("punct-pair", a + b))
+            if rng.random() < 0.15:
+                out.append(("punct-pair", "x" + a + b + "y" + a + a + b))
     # corpus: finding witnesses first in the evidence
     corpus = ["\\n", "\\,", "\\;", "\\\\", "%2C", "%3A", "%3B", "%5C", "a\\nb", "\\N", "\r\n", "\\\r\n", "a,b", "x\\",
               "\ufeffabc", "\ufeff", "a\ufeffb"]
